@@ -243,7 +243,100 @@ def eval_manifest(cfg):
     return out
 
 
+# ---- the same transformer faults in a fresh interpreter through the console entry point (its own logging, not the harness's)
+def cli_fault_cfgs(tier):
+    out = []
+    for pos in (0, 1, 2) if tier == "thorough" else (1,):
+        for empty in (False, True):
+            for opts in ((), ("--verbose",), ("--log-format", "json")) if tier == "thorough" else ((), ("--verbose",)):
+                out.append(("cli-fault", ((pos, ("empty" if empty else "message") + ":" + " ".join(opts)),)))
+    return out
+
+
+def eval_cli_fault(cfg):
+    (pos, spec), = cfg
+    empty = spec.startswith("empty:")
+    opts = tuple(spec.split(":", 1)[1].split())
+    cm = "pixee:python/use-generator"
+    src = PIPELINES["detector-less"][1] + K2_LINE
+    files = {f: src for f in FILES}
+    argv = ["{dir}", "--codemod-include", f"{cm},{K2}"] + list(opts)
+    plan = {"faults": [{"file": FILES[pos].split("/")[-1], "kind": "raise-entry", "empty_message": empty, "only_transformer": _transformer_name(cm)}]}
+    base = drive.run_cli(drive.Job(files=files, argv=argv))
+    obs = drive.run_cli(drive.Job(files=files, argv=argv, pre_hook="cmverif.faults:install", pre_hook_arg=plan))
+    for o in (base, obs):
+        if o.error:
+            raise core.HarnessError(o.error)
+    if not obs.extra.get("faults_fired"):
+        raise core.HarnessError(f"fault was not delivered in the console-script run: {obs.stderr[-1][-300:]}")
+    kind = "raise-on-entry" + ("-empty-message" if empty else "")
+    sig = lambda v: f"console-script|{kind}|{v}"
+    if obs.exit != 0:
+        return [(sig(f"exit-{obs.exit}"), f"a transformer raising {'an exception without a message' if empty else 'an exception'} on {FILES[pos]} ended the run with status {obs.exit} (options {list(opts)}): {obs.stderr[-1][-400:]}")]
+    out = []
+    for k, d in codetf.validate(obs.report, before=obs.before, after=obs.final, logs=[l for l in obs.logs[-1]]):
+        if not k.startswith("results-vs-executed"):  # the console script's log format is not parsed here
+            out.append((sig(f"report:{k}"), d))
+    for f in FILES:
+        if f == FILES[pos]:
+            if f not in _failed(obs.report, cm):
+                out.append((sig("not-listed-as-failed"), f"{f} is not in failedFiles {_failed(obs.report, cm)}"))
+            continue
+        if obs.final.get(f) != base.final.get(f):
+            out.append((sig("other-file-outcome-differs"), f"{f} ends differently than in the fault-free run"))
+    return out
+
+
+# ---- the codemod's own detection run dies: the run may abort; if it completes, no file ends up different from what the
+# fault-free run makes of it (a fault can make a codemod do less, never more or something else)
+def detector_fault_cfgs(tier):
+    cms = ["pixee:python/requests-verify", "pixee:python/enable-jinja2-autoescape", "pixee:python/secure-random"]
+    return [("detector-fault", ((i, exc),)) for i in range(len(cms) if tier == "thorough" else 2) for exc in ("CalledProcessError", "OSError")]
+
+
+DETECTOR_SRC = {
+    # only expression statements and calls (no assignment, no class): whatever the transformer does to a node it was not given,
+    # it does here without tripping over its own assertions
+    "pixee:python/requests-verify": b"import requests\nimport logging\nrequests.get('https://u', verify=False)\nlogging.getLogger('x').info('done')\nprint(len('abc'))\n",
+    "pixee:python/enable-jinja2-autoescape": b"import jinja2\nimport logging\njinja2.Environment()\nlogging.getLogger('x').info('done')\nprint(len('abc'))\n",
+    "pixee:python/secure-random": b"import random\nimport logging\nprint(random.random())\nlogging.getLogger('x').info('done')\nprint(len('abc'))\n",
+}
+
+
+def eval_detector_fault(cfg):
+    (i, exc), = cfg
+    cm = list(DETECTOR_SRC)[i]
+    files = {"app.py": DETECTOR_SRC[cm], "pkg/calls_only.py": b"print(len('abc'))\nmax(1, 2)\n"}
+    argv = ["{dir}", "--codemod-include", f"{cm},{K2}"]
+    base = drive.run_inproc(drive.Job(files=files, argv=argv))
+    obs = drive.run_inproc(drive.Job(files=files, argv=argv, pre_hook="cmverif.faults:install_detector_fault", pre_hook_arg={"exc": exc}))
+    for o in (base, obs):
+        if o.error:
+            raise core.HarnessError(o.error)
+    if base.exit != 0 or base.final["app.py"] == files["app.py"]:
+        raise core.HarnessError(f"fault-free run of {cm} is not a usable reference")
+    if not obs.extra.get("faults_fired"):
+        raise core.HarnessError("detector fault was not delivered")
+    if obs.exit != 0:
+        return []  # the run aborted: nothing was claimed
+    out = []
+    sig = lambda v: f"detector-fails|{cm}|{v}"
+    for f in files:
+        if obs.final.get(f) not in (files[f], base.final.get(f)):
+            out.append((sig("file-differs-from-input-and-from-fault-free-outcome"), f"{f}: {obs.final.get(f)!r:.300}"))
+    extra_failed = sorted(set(_failed(obs.report, cm)) - set(_failed(base.report, cm)))
+    if extra_failed:
+        out.append((sig("processable-files-listed-as-failed"), f"{extra_failed} are listed as failed although {cm} processes them without a problem in the fault-free run"))
+    for k, d in codetf.validate(obs.report, before=obs.before, after=obs.final, logs=obs.logs[-1]):
+        out.append((sig(f"report:{k}"), d))
+    return out
+
+
 def eval_cfg(cfg):
+    if cfg[0] == "detector-fault":
+        return eval_detector_fault(cfg[1])
+    if cfg[0] == "cli-fault":
+        return eval_cli_fault(cfg[1])
     if cfg[0] == "manifest":
         return eval_manifest(cfg[1])
     pipeline, faults = cfg
@@ -275,7 +368,7 @@ def configs(tier):
         for p in PIPELINES:
             for ka, kb in zip(FAULT_KINDS, FAULT_KINDS[3:] + FAULT_KINDS[:3]):
                 cfgs.append((p, ((0, ka), (2, kb))))
-    return cfgs + [("manifest", c) for c in manifest_cfgs(tier)]
+    return cfgs + [("manifest", c) for c in manifest_cfgs(tier)] + cli_fault_cfgs(tier) + detector_fault_cfgs(tier)
 
 
 def explore(tier, seed):
